@@ -523,3 +523,30 @@ M("c18-first-list-value-only", "C18", "C18/COVER",
 M("c18-twin-rename", "C18", "silent",
   (C, "        result = set()\n        for name, value in self.property_items(sorted=False):\n            if hasattr(value, \"params\"):\n                result.add(value.params.get(\"TZID\"))\n        return result - {None}",
       "        found = set()\n        for prop_name, prop_value in self.property_items(sorted=False):\n            if hasattr(prop_value, \"params\"):\n                found.add(prop_value.params.get(\"TZID\"))\n        return found - {None}"))
+
+# ---------------------------------------------------------------- C12
+M("c12-onset-minus-offsetto", "C12", "C12/ONSET-FROM",
+  (C, "            transtime - osfrom for transtime, osfrom, _, _ in transitions", "            transtime - osto for transtime, _, osto, _ in transitions"))
+M("c12-tuple-swapped", "C12", "C12/ONSET-FROM",
+  (C, "        transitions = [(transtime, offsetfrom, offsetto, tzname) for", "        transitions = [(transtime, offsetto, offsetfrom, tzname) for"))
+M("c12-offsets-swapped-at-read", "C12", "C12/ONSET-FROM",
+  (C, "        offsetfrom = component.TZOFFSETFROM\n        offsetto = component.TZOFFSETTO", "        offsetfrom = component.TZOFFSETTO\n        offsetto = component.TZOFFSETFROM"))
+M("c12-rrule-anchored-utc", "C12", "C12/ONSET-FROM",
+  (C, '            tzi = dateutil.tz.tzoffset ("(offsetfrom)", offsetfrom)', '            tzi = dateutil.tz.UTC'))
+M("c12-rrule-anchored-offsetto", "C12", "C12/ONSET-FROM",
+  (C, '            tzi = dateutil.tz.tzoffset ("(offsetfrom)", offsetfrom)', '            tzi = dateutil.tz.tzoffset ("(offsetto)", offsetto)'))
+M("c12-info-uses-osfrom", "C12", "C12/ONSET-FROM",
+  (C, "            transition_info.append((osto, dst_offset, name))", "            transition_info.append((osfrom, dst_offset, name))"))
+M("c12-unsorted", "C12", "C12/ONSET-FROM",
+  (C, "        transitions.sort()\n", ""))
+M("c12-second-module-cache", "C12", "C12/HISTORY",
+  (C, "_marker = []\n", "_marker = []\n_seen_tzids = {}\n"),
+  (C, "            uname = name.upper()\n", "            uname = name.upper()\n            _seen_tzids[uname] = True\n"))
+M("c12-lookup-writes-cache", "C12", "C12/HISTORY",
+  (T, "self.__tz_cache.get(tz_id)", "self.__tz_cache.setdefault(tz_id)"))
+M("c12-pytz-missing-method", "C12", "C12/PROVIDERS",
+  ("timezone/pytz.py", "    def fix_rrule_until(self, rrule:rrule, ical_rrule:prop.vRecur) -> None:", "    def _fix_rrule_until(self, rrule:rrule, ical_rrule:prop.vRecur) -> None:"))
+M("c12-cutoff-differs", "C12", "C12/PROVIDERS",
+  ("timezone/pytz.py", "datetime(2038, 12, 31, tzinfo=pytz.UTC)", "datetime(2037, 12, 31, tzinfo=pytz.UTC)"))
+M("c12-twin-rename-osfrom", "C12", "silent",
+  (C, "            transtime - osfrom for transtime, osfrom, _, _ in transitions", "            local - before for local, before, _, _ in transitions"))
